@@ -31,8 +31,16 @@ class ConvHooks(Hooks):
     # number of times on each path: it is interpreted exactly for a few rounds rather than abstracted
     inner_unroll = 5
 
-    def unroll_for(self, I, fn, header):
+    root_fn = None
+
+    def unroll_for(self, I, fn, header, st=None):
         from ..interp import loop_info
+        if st is not None and len(st.frames) > 1:
+            # a loop of a helper that is called from inside a loop of one of its callers (a per-character helper)
+            for fr2 in st.frames[:-1]:
+                loops2, _b = loop_info(fr2.fn)
+                if any(fr2.block in body for body in loops2.values()):
+                    return self.inner_unroll
         loops, back = loop_info(fn)
         for h2, body in loops.items():
             if h2 != header and header in body:
@@ -239,6 +247,8 @@ def run_iteration(I, fn, st, args, eb_src, eb_dst):
 
 def _run_iteration(I, fn, st, args, eb_src, eb_dst):
     h = I.h
+    if hasattr(h, 'root_fn'):
+        h.root_fn = fn.name
     st.frames = []
     st.events = []
     for k in [k for k in st.flags if isinstance(k, str) and (k.startswith('wbegin:') or k.startswith('wend:'))]:
